@@ -57,6 +57,14 @@ def c10_1(c: Ctx) -> None:
     direct = [n for n in own_nodes(u.node) if isinstance(n, ast.Await) and U(n.value) == t]
     for n in direct:
         c.fail(u, f'awaits the handler task directly: {U(n)}', 'the handler can run past its timeout', node=n)
+    # the record's timeout is fixed at construction (from the event's own event_timeout): nothing assigns it afterwards, so no caller-supplied or bus-wide value
+    # can replace — in particular exceed — the event's timeout
+    tw = [w_ for w_ in c.cg.all_writes('timeout') if w_.unit.module in (SVC, MOD) and w_.how in ('assign', 'augassign', 'setattr')]
+    if not tw:
+        c.ok('bubus/*.py', 'EventResult.timeout is never assigned after construction')
+    for w_ in tw:
+        c.fail(w_.unit, f'assigns a result record\'s timeout: {q.stmt_text(q.stmt_of(w_.node), 70)}', 'the timeout a handler runs under can be replaced after the record was created (by a caller-supplied or bus-wide value): '
+               'a handler is no longer cancelled when its event\'s event_timeout expires', node=w_.node)
     upd = c.unit(MOD, 'BaseEvent.event_result_update')
     ctor = [n for n in own_nodes(upd.node) if isinstance(n, ast.Call) and isinstance(n.func, ast.Name) and n.func.id == 'EventResult']
     c.floor(len(ctor), 1, 'EventResult(...) construction in event_result_update')
@@ -323,6 +331,16 @@ def c10_8(c: Ctx) -> None:
     from .c09 import check_child_registration_guards
 
     check_child_registration_guards(c)
+
+
+@ob('C10.9', 'WMC', 'handlers run, and events are processed, only through the chain step / inline loop -> process_event -> _execute_handlers -> execute_handler (same obligation as C01.6): '
+    'a new entry point that processes an event directly bypasses the per-handler timeout, or the child registration the timeout cancellation relies on')
+def c10_9(c: Ctx) -> None:
+    from .c01 import c01_6
+    from .c09 import check_dispatch_entry_points
+
+    c01_6(c)
+    check_dispatch_entry_points(c)
 
 
 OBLIGATIONS = ob.obs
